@@ -1,6 +1,6 @@
 (* C03 property theorems only: each closed by `exact <lemma>` with Print Assumptions beneath.
    Vocabulary (Proofs_Main.v): tet_mesh cells = every cell is 4 distinct vertices; faces_of / edges_of = the completed
-   face / edge lists (mesh_data.py); tables cells = Run.build (the record the correspondence batches evaluate);
+   face / edge lists (mesh_data.py); tables M = Run.build (the record the correspondence batches evaluate);
    face / edge / cell = the vertex list of an element; conforming = a triangle of a cell lies in at most two cells.
    Full / partial / refuted status is in each name and in the comment above it. *)
 From Coq Require Import String List Arith Bool ZArith Reals Permutation Sorted.
@@ -11,92 +11,94 @@ Require Import MV.Lib.Base MV.C03.Gen MV.C03.GenR MV.C03.Model MV.C03.Run MV.C03
 Local Open Scope nat_scope.
 
 (* FULL. Completion: every triangle of every cell is a face exactly once, every side of every face an edge exactly
-   once, every face is stored in the convention order of a cell that has it. *)
-Theorem C03_faces_and_edges_from_cells : forall cells, tet_mesh cells ->
-  faces_wf cells (faces_of cells) /\ edges_wf (faces_of cells) (edges_of cells)
-  /\ (forall F, In F (faces_of cells) -> exists C, In C cells /\ In F (tet_faces C)).
+   once; a face is a declared one or is stored in the convention order of a cell that has it; every face lies in a cell. *)
+Theorem C03_faces_and_edges_from_cells : forall M, tet_mesh M ->
+  faces_wf (m_cells M) (faces_of M) /\ edges_wf (faces_of M) (edges_of M)
+  /\ (forall F, In F (faces_of M) -> In F (m_faces0 M) \/ exists C, In C (m_cells M) /\ In F (tet_faces C))
+  /\ (forall F, In F (faces_of M) -> exists C, In C (m_cells M) /\ incl F C).
 Proof. exact faces_edges_from_cells. Qed.
 Print Assumptions C03_faces_and_edges_from_cells.
 
 (* FULL. Building the incidence tables raises nothing (no face_id miss) on any tetrahedral cell list. *)
-Theorem C03_incidence_tables_built_without_error : forall cells, tet_mesh cells -> t_ok (tables cells) = true.
+Theorem C03_incidence_tables_built_without_error : forall M, tet_mesh M -> t_ok (tables M) = true.
 Proof. exact tables_ok. Qed.
 Print Assumptions C03_incidence_tables_built_without_error.
 
 (* FULL. face_to_cells(f) = the cells containing all three vertices of f, in increasing order. *)
-Theorem C03_incidence_face_to_cells : forall cells, tet_mesh cells -> forall f, f < length (faces_of cells) ->
-  F2C (t_f2c (tables cells)) f = filter (fun c => subsetb (face cells f) (cell cells c)) (seq 0 (length cells)).
+Theorem C03_incidence_face_to_cells : forall M, tet_mesh M -> forall f, f < length (faces_of M) ->
+  F2C (t_f2c (tables M)) f = filter (fun c => subsetb (face M f) (cell M c)) (seq 0 (length (m_cells M))).
 Proof. exact face_to_cells_is_brute_force. Qed.
 Print Assumptions C03_incidence_face_to_cells.
 
 (* FULL. cell_to_face(c) has 4 entries; the i-th is the face made of the vertices of c other than its i-th vertex. *)
-Theorem C03_incidence_cell_to_face : forall cells, tet_mesh cells -> forall c, c < length cells ->
-  exists l, C2F (t_c2f (tables cells)) c = l /\ length l = 4 /\
+Theorem C03_incidence_cell_to_face : forall M, tet_mesh M -> forall c, c < length (m_cells M) ->
+  exists l, C2F (t_c2f (tables M)) c = l /\ length l = 4 /\
     forall i, i < 4 ->
       let f := nth i l 0 in
-      f < length (faces_of cells) /\ Permutation (face cells f) (rm i (cell cells c))
-      /\ incl (face cells f) (cell cells c) /\ ~ In (nth i (cell cells c) 0) (face cells f).
+      f < length (faces_of M) /\ Permutation (face M f) (rm i (cell M c))
+      /\ incl (face M f) (cell M c) /\ ~ In (nth i (cell M c) 0) (face M f).
 Proof. exact cell_to_face_is_opposite_faces. Qed.
 Print Assumptions C03_incidence_cell_to_face.
 
 (* FULL (conforming meshes). cell_to_cell(c) = for i = 0..3 in order, the other cell containing the facet opposite
    the i-th vertex, when there is one. *)
-Theorem C03_incidence_cell_to_cell : forall cells, tet_mesh cells -> conforming cells ->
-  exists t, t_c2c (tables cells) = Ok t /\
-    forall c, c < length cells ->
-      C2C t c = flat_map (fun i => filter (fun c2 => negb (c2 =? c) && subsetb (rm i (cell cells c)) (cell cells c2))
-                                          (seq 0 (length cells))) (seq 0 4).
+Theorem C03_incidence_cell_to_cell : forall M, tet_mesh M -> conforming (m_cells M) ->
+  exists t, t_c2c (tables M) = Ok t /\
+    forall c, c < length (m_cells M) ->
+      C2C t c = flat_map (fun i => filter (fun c2 => negb (c2 =? c) && subsetb (rm i (cell M c)) (cell M c2))
+                                          (seq 0 (length (m_cells M)))) (seq 0 4).
 Proof. exact cell_to_cell_is_brute_force. Qed.
 Print Assumptions C03_incidence_cell_to_cell.
 
-(* FULL. vertex_to_cell(v) is, as a duplicate-free set, the cells having v. *)
-Theorem C03_incidence_vertex_to_cell : forall cells v c,
-  (In c (V2C cells v) <-> c < length cells /\ In v (cell cells c)) /\ NoDup (V2C cells v).
+(* FULL. vertex_to_cell(v): the set collected by the double loop of _compute_connectivity is, duplicate-free, the cells having v. *)
+Theorem C03_incidence_vertex_to_cell : forall M v c,
+  (In c (V2C (m_cells M) v) <-> c < length (m_cells M) /\ In v (cell M c)) /\ NoDup (V2C (m_cells M) v).
 Proof. exact vertex_to_cell_is_brute_force. Qed.
 Print Assumptions C03_incidence_vertex_to_cell.
 
 (* FULL (unsorted tables). edge_to_face(e) = the faces containing both end points, in increasing order. *)
-Theorem C03_incidence_edge_to_face : forall cells, tet_mesh cells -> forall e, e < length (edges_of cells) ->
-  nth e (t_e2f (tables cells)) [] = filter (fun f => subsetb (edge cells e) (face cells f)) (seq 0 (length (faces_of cells))).
+Theorem C03_incidence_edge_to_face : forall M, tet_mesh M -> forall e, e < length (edges_of M) ->
+  nth e (t_e2f (tables M)) [] = filter (fun f => subsetb (edge M e) (face M f)) (seq 0 (length (faces_of M))).
 Proof. exact edge_to_face_is_brute_force. Qed.
 Print Assumptions C03_incidence_edge_to_face.
 
 (* FULL (unsorted tables). edge_to_cell(e) is, as a duplicate-free set, the cells containing both end points. *)
-Theorem C03_incidence_edge_to_cell : forall cells, tet_mesh cells -> forall e c, e < length (edges_of cells) ->
-  (In c (nth e (t_e2c (tables cells)) []) <-> c < length cells /\ incl (edge cells e) (cell cells c))
-  /\ NoDup (nth e (t_e2c (tables cells)) []).
+Theorem C03_incidence_edge_to_cell : forall M, tet_mesh M -> forall e c, e < length (edges_of M) ->
+  (In c (nth e (t_e2c (tables M)) []) <-> c < length (m_cells M) /\ incl (edge M e) (cell M c))
+  /\ NoDup (nth e (t_e2c (tables M)) []).
 Proof. exact edge_to_cell_is_brute_force. Qed.
 Print Assumptions C03_incidence_edge_to_cell.
 
 (* FULL. Border faces = faces in exactly one cell, interior faces = faces in at least two; border vertices / edges =
    those of the border faces. *)
-Theorem C03_border_classification : forall cells, tet_mesh cells ->
-  let bf := t_bf (tables cells) in
-  (forall f, In f bf <-> f < length (faces_of cells) /\ n_cells_of_face cells f = 1)
-  /\ (forall f, In f (interior_faces (faces_of cells) (t_f2c (tables cells))) <->
-                f < length (faces_of cells) /\ 2 <= n_cells_of_face cells f)
-  /\ (forall nv v, In v (boundary_vertices nv (faces_of cells) bf) <->
-                   v < nv /\ exists f, In f bf /\ In v (face cells f))
-  /\ (forall e, In e (boundary_edges (faces_of cells) (edges_of cells) bf) <->
-                e < length (edges_of cells) /\ exists f, In f bf /\ incl (edge cells e) (face cells f)).
+Theorem C03_border_classification : forall M, tet_mesh M ->
+  let bf := t_bf (tables M) in
+  (forall f, In f bf <-> f < length (faces_of M) /\ n_cells_of_face M f = 1)
+  /\ (forall f, In f (interior_faces (faces_of M) (t_f2c (tables M))) <->
+                f < length (faces_of M) /\ 2 <= n_cells_of_face M f)
+  /\ (forall nv v, In v (boundary_vertices nv (faces_of M) bf) <->
+                   v < nv /\ exists f, In f bf /\ In v (face M f))
+  /\ (forall e, In e (boundary_edges (faces_of M) (edges_of M) bf) <->
+                e < length (edges_of M) /\ exists f, In f bf /\ incl (edge M e) (face M f)).
 Proof. exact border_classification. Qed.
 Print Assumptions C03_border_classification.
 
-(* FULL. boundary_X ++ interior_X is a permutation of all ids of X, for faces, vertices and edges. *)
-Theorem C03_border_partitions_exact : forall cells nv,
-  let bf := t_bf (tables cells) in
-  Permutation (bf ++ interior_faces (faces_of cells) (t_f2c (tables cells))) (seq 0 (length (faces_of cells)))
-  /\ Permutation (boundary_vertices nv (faces_of cells) bf ++ interior_vertices nv (faces_of cells) bf) (seq 0 nv)
-  /\ Permutation (boundary_edges (faces_of cells) (edges_of cells) bf ++ interior_edges (faces_of cells) (edges_of cells) bf)
-                 (seq 0 (length (edges_of cells))).
+(* FULL but structural (both lists are the two halves of one filter in the model; that the code's loops are such filters is
+   what the correspondence ties): boundary_X ++ interior_X is a permutation of all ids of X, for faces, vertices, edges. *)
+Theorem C03_border_partitions_exact : forall M nv,
+  let bf := t_bf (tables M) in
+  Permutation (bf ++ interior_faces (faces_of M) (t_f2c (tables M))) (seq 0 (length (faces_of M)))
+  /\ Permutation (boundary_vertices nv (faces_of M) bf ++ interior_vertices nv (faces_of M) bf) (seq 0 nv)
+  /\ Permutation (boundary_edges (faces_of M) (edges_of M) bf ++ interior_edges (faces_of M) (edges_of M) bf)
+                 (seq 0 (length (edges_of M))).
 Proof. exact border_partitions. Qed.
 Print Assumptions C03_border_partitions_exact.
 
 (* FULL (conforming meshes). The boundary is closed: every pair of distinct vertices lies in an even number of border
    faces (hence every edge of either extracted surface, whose faces are the border faces renumbered injectively, has an
    even number of incident faces; that it is exactly two needs manifoldness of the boundary and is only tested). *)
-Theorem C03_boundary_closed : forall cells, tet_mesh cells -> conforming cells -> forall E, edge_ok E ->
-  Nat.even (length (filter (fun f => subsetb E (face cells f)) (t_bf (tables cells)))) = true.
+Theorem C03_boundary_closed : forall M, tet_mesh M -> conforming (m_cells M) -> forall E, edge_ok E ->
+  Nat.even (length (filter (fun f => subsetb E (face M f)) (t_bf (tables M)))) = true.
 Proof. exact boundary_closed. Qed.
 Print Assumptions C03_boundary_closed.
 
@@ -126,40 +128,55 @@ Theorem C03_boundary_connectivity_faces_outward : forall cells faces pos f2c vs 
 Proof. exact bc_face_outward. Qed.
 Print Assumptions C03_boundary_connectivity_faces_outward.
 
-(* FULL. Standalone extractor: a stored face is the convention-order face of a cell containing it (its only cell when it
-   is a border face), opposite that cell's i-th vertex, and is outward whenever that cell is positive in mouette's own
-   determinant det(pA-pD,pB-pD,pC-pD) of the cell (A,B,C,D). *)
-Theorem C03_standalone_faces_outward_when_positive : forall cells, tet_mesh cells -> forall pos f,
-  f < length (faces_of cells) ->
-  exists C i, In C cells /\ i < 4 /\ face cells f = nth i (tet_faces C) [] /\ incl (face cells f) C
-              /\ ~ In (nth i C 0) (face cells f)
-              /\ (cell_positive pos C -> face_outward pos (face cells f) (nth i C 0)).
+(* FULL. Standalone extractor extract_boundary_of_volume (after the repair 832f457; its face expression, guard, flip test
+   and flipped tuple are regenerated from border.py): the face it emits for a border face is that face's three vertices
+   renumbered by m2b in an order that is outward w.r.t. the fourth vertex of its cell - whatever the orientation of the
+   cell and whatever the order a declared face was given in. *)
+Theorem C03_standalone_faces_outward : forall M, tet_mesh M -> forall pos vs f T,
+  In f (t_bf (tables M)) -> ex_face (m_cells M) (faces_of M) pos (t_f2c (tables M)) vs f = Ok T ->
+  exists a b c d iC p q r,
+    face M f = [a; b; c] /\ hd_error (F2C (t_f2c (tables M)) f) = Some iC
+    /\ hd_error (others (cell M iC) [a; b; c]) = Some d
+    /\ map (b2m vs) T = [Some p; Some q; Some r]
+    /\ Permutation [p; q; r] [a; b; c]
+    /\ (det_3x3 (vsub3 (pos a) (pos d)) (vsub3 (pos b) (pos d)) (vsub3 (pos c) (pos d)) <> 0%Z ->
+        outward_Z (pos p) (pos q) (pos r) (pos d) = true).
 Proof. exact standalone_faces_outward. Qed.
-Print Assumptions C03_standalone_faces_outward_when_positive.
+Print Assumptions C03_standalone_faces_outward.
 
-(* FULL. Vertex index maps: for every duplicate-free enumeration of the border vertices m2b and b2m are mutually
-   inverse; the same holds of the face maps (an enumeration of boundary_faces) read as dicts. *)
-Theorem C03_vertex_and_face_maps_inverse : forall l : list nat, NoDup l ->
-  (forall v i, m2b l v = Some i <-> b2m l i = Some v)
-  /\ (forall v i, dict_get (combine l (seq 0 (length l))) v = Some i <-> dict_get (combine (seq 0 (length l)) l) i = Some v)
-  /\ (forall v i, dict_get (combine (seq 0 (length l)) l) i = Some v <-> b2m l i = Some v).
-Proof.
-  exact (fun l ND => conj (fun v i => vertex_maps_inverse l v i ND)
-                          (conj (fun v i => enumeration_maps_inverse l v i ND) (fun v i => dict_get_enum l i v ND))).
-Qed.
-Print Assumptions C03_vertex_and_face_maps_inverse.
+(* FULL. The two extractors emit the same oriented triangle for every border face (they disagreed before 832f457: for a
+   right-handed cell det(p1-p0,p2-p0,p3-p0) > 0 the stored convention order is inward, Proofs_Orient.
+   convention_faces_inward_if_right_handed). *)
+Theorem C03_extractors_agree : forall M, tet_mesh M -> forall pos vs f,
+  In f (t_bf (tables M)) ->
+  ex_face (m_cells M) (faces_of M) pos (t_f2c (tables M)) vs f = bc_face (m_cells M) (faces_of M) pos (t_f2c (tables M)) vs f.
+Proof. exact extractors_emit_the_same_faces. Qed.
+Print Assumptions C03_extractors_agree.
+
+(* FULL. The vertex and face index dicts as the code writes them (entries regenerated from volume.py / border.py): for
+   every duplicate-free enumeration l, m2b sends the i-th enumerated element to i and b2m sends i back - mutually
+   inverse, m2b defined exactly on the enumerated elements, b2m exactly on 0..|l|-1. *)
+Theorem C03_vertex_and_face_dicts_inverse : forall l : list nat, NoDup l -> forall x i,
+  (dict_get (dict_enum bc_m2b_vertex_entry l) x = Some i <-> nth_error l i = Some x)
+  /\ (dict_get (dict_enum bc_b2m_vertex_entry l) i = Some x <-> nth_error l i = Some x)
+  /\ (dict_get (dict_enum bc_m2b_face_entry l) x = Some i <-> nth_error l i = Some x)
+  /\ (dict_get (dict_enum bc_b2m_face_entry l) i = Some x <-> nth_error l i = Some x)
+  /\ (dict_get (dict_enum ex_m2b_entry l) x = Some i <-> nth_error l i = Some x)
+  /\ (dict_get (dict_enum ex_b2m_entry l) i = Some x <-> nth_error l i = Some x).
+Proof. exact written_dicts. Qed.
+Print Assumptions C03_vertex_and_face_dicts_inverse.
 
 (* FULL. _BoundaryConnectivity on any tetrahedral cell list and any duplicate-free enumeration vs of the border vertices:
    the surface faces and the edge indirection are built without exception; m2b_edge is defined exactly on the border
    edges, b2m_edge on EVERY edge of the surface, and the two dicts are mutually inverse. *)
-Theorem C03_edge_maps_total_and_inverse : forall cells, tet_mesh cells -> forall pos vs,
-  let bf := t_bf (tables cells) in
-  NoDup vs -> (forall f v, In f bf -> In v (face cells f) -> In v vs) ->
+Theorem C03_edge_maps_total_and_inverse : forall M, tet_mesh M -> forall pos vs,
+  let bf := t_bf (tables M) in
+  NoDup vs -> (forall f v, In f bf -> In v (face M f) -> In v vs) ->
   exists bfs m,
-    bc_faces cells (faces_of cells) pos (t_f2c (tables cells)) vs bf = Ok bfs
-    /\ bc_edge_map (edges_of cells) (complete_edges [] bfs) vs
-                   (boundary_edges (faces_of cells) (edges_of cells) bf) = Ok m
-    /\ map fst m = boundary_edges (faces_of cells) (edges_of cells) bf
+    bc_faces (m_cells M) (faces_of M) pos (t_f2c (tables M)) vs bf = Ok bfs
+    /\ bc_edge_map (edges_of M) (complete_edges [] bfs) vs
+                   (boundary_edges (faces_of M) (edges_of M) bf) = Ok m
+    /\ map fst m = boundary_edges (faces_of M) (edges_of M) bf
     /\ (forall b, b < length (complete_edges [] bfs) -> exists e, In (e, b) m)
     /\ (forall e b, dict_get m e = Some b <-> dict_get (map swap m) b = Some e).
 Proof. exact boundary_connectivity_maps. Qed.
@@ -169,14 +186,14 @@ Print Assumptions C03_edge_maps_total_and_inverse.
    injective map m2b): every pair of distinct surface vertices lies in an even number of surface faces; and under the
    stated guard `manifold_boundary` (a vertex pair lies in at most two border faces) every edge of the surface has
    exactly two incident faces. *)
-Theorem C03_extracted_surfaces_closed : forall cells, tet_mesh cells -> forall pos vs sfaces,
-  let bf := t_bf (tables cells) in
-  conforming cells -> NoDup vs ->
-  (bc_faces cells (faces_of cells) pos (t_f2c (tables cells)) vs bf = Ok sfaces
-   \/ ex_faces (faces_of cells) vs bf = Ok sfaces) ->
+Theorem C03_extracted_surfaces_closed : forall M, tet_mesh M -> forall pos vs sfaces,
+  let bf := t_bf (tables M) in
+  conforming (m_cells M) -> NoDup vs ->
+  (bc_faces (m_cells M) (faces_of M) pos (t_f2c (tables M)) vs bf = Ok sfaces
+   \/ ex_faces (m_cells M) (faces_of M) pos (t_f2c (tables M)) vs bf = Ok sfaces) ->
   (forall a1 a2 u v, b2m vs a1 = Some u -> b2m vs a2 = Some v -> a1 <> a2 ->
      Nat.even (length (filter (fun T => subsetb [a1; a2] T) sfaces)) = true)
-  /\ (manifold_boundary cells (faces_of cells) ->
+  /\ (manifold_boundary (m_cells M) (faces_of M) ->
       forall T a1 a2, In T sfaces -> In a1 T -> In a2 T -> a1 <> a2 ->
         length (filter (fun T' => subsetb [a1; a2] T') sfaces) = 2).
 Proof. exact extracted_surfaces_closed. Qed.
@@ -190,21 +207,21 @@ Theorem C03_query_order_no_attribute_error :
 Proof. exact no_attribute_error_any_order. Qed.
 Print Assumptions C03_query_order_no_attribute_error.
 
-(* FULL for the cells, PARTIAL for the faces. Rotational order around an edge (_sort_edge_neighborhoods after the repair
+(* PARTIAL: full for the cells, only `Permutation` for the faces. Rotational order around an edge (_sort_edge_neighborhoods after the repair
    e464500), for EVERY start cell the set order may pick: the sort never raises and never runs out of fuel; it returns
    the cells / faces of the edge (permutations of the unsorted tables); when it reports "sorted" the cell list is
    duplicate-free, contains the start, and consecutive cells share a face containing the edge; and it does report
    "sorted" on a conforming mesh whenever the cells around the edge are connected through faces containing the edge.
    Missing (tested only): the sorted FACE list is in rotational order too (it is proved to be the faces of the edge
    sorted by the walk keys). *)
-Theorem C03_edge_ring : forall cells, tet_mesh cells -> forall e start,
-  e < length (edges_of cells) -> In start (nth e (t_e2c (tables cells)) []) ->
+Theorem C03_edge_ring_partial : forall M, tet_mesh M -> forall e start,
+  e < length (edges_of M) -> In start (nth e (t_e2c (tables M)) []) ->
   exists A B b cs fs,
-    edge cells e = [A; B] /\
-    sorted_edge cells (faces_of cells) (edges_of cells) (t_f2c (tables cells))
-                (nth e (t_e2c (tables cells)) []) (nth e (t_e2f (tables cells)) []) e start = Ok (b, cs, fs)
-    /\ Permutation cs (nth e (t_e2c (tables cells)) []) /\ Permutation fs (nth e (t_e2f (tables cells)) [])
-    /\ (b = true -> NoDup cs /\ Sorted (adjacent_around cells (faces_of cells) A B) cs /\ In start cs)
-    /\ (conforming cells -> link_connected cells (faces_of cells) A B (nth e (t_e2c (tables cells)) []) -> b = true).
+    edge M e = [A; B] /\
+    sorted_edge (m_cells M) (faces_of M) (edges_of M) (t_f2c (tables M))
+                (nth e (t_e2c (tables M)) []) (nth e (t_e2f (tables M)) []) e start = Ok (b, cs, fs)
+    /\ Permutation cs (nth e (t_e2c (tables M)) []) /\ Permutation fs (nth e (t_e2f (tables M)) [])
+    /\ (b = true -> NoDup cs /\ Sorted (adjacent_around (m_cells M) (faces_of M) A B) cs /\ In start cs)
+    /\ (conforming (m_cells M) -> link_connected (m_cells M) (faces_of M) A B (nth e (t_e2c (tables M)) []) -> b = true).
 Proof. exact edge_ring. Qed.
-Print Assumptions C03_edge_ring.
+Print Assumptions C03_edge_ring_partial.
